@@ -1,6 +1,7 @@
 // Package c10: storage failures fail closed - an error response, no code and no token (property C10).
 //
-// A case is one scenario (router, flow, client kind, token type, signing algorithm, storage capabilities, flow variant).
+// A case is one scenario (router, flow, client shape = application type x auth method x credential presentation, token type,
+// signing algorithm, storage capabilities, flow variant).
 // run executes it once without faults; the journal of the verification storage yields the N storage calls of the
 // request under test. Then the scenario is rebuilt from scratch and re-run once for every (call position j in 1..N) x
 // (fault kind in error | deadline | partial-fill-then-error | *oidc.Error server_error | plain error wrapping an *oidc.Error |
@@ -56,6 +57,11 @@ type Case struct {
 	ClientParam  bool     `json:"client_param,omitempty"`       // end_session: client_id parameter (without hint)
 	PostLogout   bool     `json:"post_logout,omitempty"`        // end_session: post_logout_redirect_uri
 	State        bool     `json:"state,omitempty"`              // end_session: state
+
+	// the client of the request under test: application type x auth method (Client) x how it presents itself
+	AppType       string `json:"app_type,omitempty"`        // "" = what the client kind implies (public: native, else web) | web | user_agent | native
+	Present       string `json:"present,omitempty"`         // credential flows: "" = the presentation that fits the auth method | basic | basic-empty (Basic header, empty password) | post | id (client_id only) | assertion
+	EmptySecretOK bool   `json:"empty_secret_ok,omitempty"` // the storage compares secrets as plain strings: a client without a secret "matches" an empty one (as example/server/storage does)
 }
 
 // ---- scenario space ------------------------------------------------------------------
@@ -65,10 +71,15 @@ var (
 	flows   = []string{"authorize", "callback_code", "callback_implicit", "code_exchange", "refresh", "client_credentials", "jwt_bearer",
 		"token_exchange", "device_authorize", "device_poll", "userinfo", "introspect", "revoke", "keys", "end_session"}
 	clientKinds = []string{"basic", "post", "pkjwt", "public"}
-	allAlgs     = []string{"RS256", "PS256", "ES256", "EdDSA", "RS512", "ES384", "ES512"}
-	latticeAlgs = []string{"RS256", "ES256", "EdDSA"} // one per key family; the other four are sampled by TestRapid
-	capKinds    = []string{"min", "full", "extras"}
-	scopeSets   = [][]string{
+	appTypes    = []string{"web", "user_agent", "native"}
+	// credFlows: the request under test carries client credentials; presentations: the ways a caller can present a client
+	credFlows     = []string{"code_exchange", "refresh", "client_credentials", "token_exchange", "device_authorize", "device_poll", "introspect", "revoke"}
+	presentations = []string{"basic", "basic-empty", "post", "id", "assertion"}
+	rightPresent  = map[string]string{"basic": "basic", "post": "post", "pkjwt": "assertion", "public": "id"}
+	allAlgs       = []string{"RS256", "PS256", "ES256", "EdDSA", "RS512", "ES384", "ES512"}
+	latticeAlgs   = []string{"RS256", "ES256", "EdDSA"} // one per key family; the other four are sampled by TestRapid
+	capKinds      = []string{"min", "full", "extras"}
+	scopeSets     = [][]string{
 		{"openid"},
 		{"openid", "profile", "email", vkit.CustomScope},
 		{"openid", "profile", "email", "phone", "address", vkit.CustomScope, "offline_access"},
@@ -105,6 +116,14 @@ func without(l []string, s string) []string {
 		}
 	}
 	return out
+}
+
+// defaultAppType: the application type of a client kind unless the case says otherwise.
+func defaultAppType(client string) string {
+	if client == "public" {
+		return "native"
+	}
+	return "web"
 }
 
 // allowedClients: the client kinds that can complete the flow on the router (a sound fault-free baseline).
@@ -154,9 +173,28 @@ func normalize(c Case) Case {
 	}
 	ac := allowedClients(n.Router, n.Flow)
 	n.Client = c.Client
-	if !has(ac, n.Client) {
+	if has(credFlows, n.Flow) && has(presentations, c.Present) && has(clientKinds, n.Client) {
+		// an explicit presentation: every client kind may try it (whether the fault-free request is served is found out by the baseline)
+		n.Present = c.Present
+		if n.Client == "public" { // holds no secret: its secret presentations are the empty ones
+			switch n.Present {
+			case "basic":
+				n.Present = "basic-empty"
+			case "post":
+				n.Present = "id" // client_secret= (empty) decodes like an absent one
+			}
+		}
+		if n.Present == rightPresent[n.Client] {
+			n.Present = ""
+		}
+	}
+	if n.Present == "" && !has(ac, n.Client) {
 		n.Client = ac[0]
 	}
+	if n.Client != "" && has(appTypes, c.AppType) && c.AppType != defaultAppType(n.Client) {
+		n.AppType = c.AppType
+	}
+	n.EmptySecretOK = c.EmptySecretOK && n.Client == "public" && n.Present == "basic-empty"
 	scopes := append([]string{}, c.Scopes...)
 	if !has(scopes, "openid") {
 		scopes = append([]string{"openid"}, scopes...)
@@ -276,10 +314,17 @@ func genCase(t *rapid.T) Case {
 	c.ClientParam = rapid.Bool().Draw(t, "client_param")
 	c.PostLogout = rapid.Bool().Draw(t, "post_logout")
 	c.State = rapid.Bool().Draw(t, "state")
+	// client shape: application type x auth method x presentation (half of the cases keep the presentation that fits the auth method)
+	c.AppType = rapid.SampledFrom([]string{"", "", "web", "user_agent", "native"}).Draw(t, "app_type")
+	c.Present = rapid.SampledFrom(append([]string{"", "", "", "", ""}, presentations...)).Draw(t, "present")
+	if c.Present != "" {
+		c.Client = rapid.SampledFrom(clientKinds).Draw(t, "presenting_client")
+	}
+	c.EmptySecretOK = rapid.Bool().Draw(t, "empty_secret_ok")
 	return normalize(c)
 }
 
-// lattice enumerates the scenario cells (normalised, de-duplicated, in a fixed order).
+// lattice enumerates the scenario cells (normalised, de-duplicated, in a fixed order), followed by the client-shape layer.
 // full: the complete product router x flow x {RS256, ES256, EdDSA} x capability shape x client kind x token type x every flow variant.
 // !full (quick tier): one layer of it - every router x flow x client kind x token type x the storage-relevant flow variants
 // (richest scope set, default response mode), with algorithm and capability shape rotating over the cells instead of being crossed.
@@ -424,6 +469,33 @@ func lattice(full bool) []Case {
 									}
 								}
 							default:
+								add(c)
+							}
+						}
+					}
+				}
+			}
+		}
+	}
+	// The client-shape layer: every credential flow on both routers x auth method x presentation x application type
+	// (x a storage that lets an empty secret match a client without one), other dimensions at their defaults.
+	// quick: the application type is crossed for the device flows (whose outcome depends on it) and rotates over the other cells.
+	for _, router := range routers {
+		for _, flow := range credFlows {
+			for _, client := range clientKinds {
+				for _, pres := range append([]string{""}, presentations...) {
+					rot := k % len(appTypes)
+					for ai, app := range appTypes {
+						if !full && flow != "device_authorize" && flow != "device_poll" && ai != rot {
+							continue
+						}
+						for _, eso := range bools {
+							for _, jwt := range bools {
+								if !full && jwt {
+									continue
+								}
+								c := Case{Router: router, Flow: flow, Alg: "RS256", Caps: capsOf("full", flow), Client: client, Present: pres, AppType: app, EmptySecretOK: eso, JWTAT: jwt}
+								c.Scopes, c.SubjectType = scopeSets[1], "access"
 								add(c)
 							}
 						}
@@ -688,6 +760,7 @@ func backed(c Case, out outcome) bool {
 }
 
 type infoT struct {
+	Baseline string         `json:"baseline"` // success | refused:<error shape> (the fault-free request)
 	Calls    []string       `json:"calls"`
 	Triples  int            `json:"triples"`
 	Methods  int            `json:"method_wide_runs"`
@@ -723,16 +796,40 @@ func run(c Case) (res *vkit.Result) {
 		count("setup_failed", 1)
 		return res
 	}
+	info := infoT{Outcomes: map[string]int{}, Baseline: "success"}
 	if !succeeded(c, base.resp) {
-		// not this property's business (a request that fails without any storage failure); counted, nothing asserted
-		res.Grey = true
-		res.Label("baseline-not-success:" + c.Flow + "/" + c.Router)
-		count("baseline_not_success", 1)
-		res.Info = map[string]any{"baseline": base.resp.Describe()}
-		return res
+		// The fault-free request is not served (e.g. a presentation that does not fit the client). The statement speaks of every
+		// request: if the baseline is a clean refusal (an error answer without material) its storage calls are enumerated all the
+		// same - a failing storage call must not turn a refused request into a served one. Anything else (neither success nor a
+		// clean refusal) is not this property's business: counted, nothing asserted.
+		refusal, how := errorAnswer(c, base.resp, true)
+		if base.resp.Panic != nil || !refusal || len(material(base.resp)) > 0 {
+			res.Grey = true
+			res.Label("baseline-not-success:" + c.Flow + "/" + c.Router)
+			count("baseline_not_success", 1)
+			res.Info = map[string]any{"baseline": base.resp.Describe()}
+			return res
+		}
+		info.Baseline = "refused:" + how
+		count("baseline_refused", 1)
+		count("baseline_refused_positions", len(base.calls))
+	}
+	baseKind := strings.SplitN(info.Baseline, ":", 2)[0]
+	res.Label("baseline:"+baseKind, "baseline:"+baseKind+":"+c.Flow+"/"+c.Router)
+	if has(credFlows, c.Flow) {
+		app, pres := c.AppType, c.Present
+		if app == "" {
+			app = defaultAppType(c.Client)
+		}
+		if pres == "" {
+			pres = "fitting"
+		}
+		res.Label("app:"+app, "present:"+c.Client+"/"+pres+":"+baseKind)
+		if c.EmptySecretOK {
+			res.Label("store:empty-secret-ok")
+		}
 	}
 	n := len(base.calls)
-	info := infoT{Outcomes: map[string]int{}}
 	var methods []string
 	for _, e := range base.calls {
 		info.Calls = append(info.Calls, e.Method)
@@ -879,13 +976,13 @@ func run(c Case) (res *vkit.Result) {
 
 var prop = vkit.Prop[Case]{
 	ID: "C10",
-	Rule: "case = scenario (router x 15 flows x client kind x opaque/JWT access token x signing alg x storage capability shape incl. extras x flow variant: scopes, response type/mode, PKCE, userinfo assertion, " +
+	Rule: "case = scenario (router x 15 flows x client shape [application type web / user_agent / native x auth method basic / post / private_key_jwt / none x credential presentation of the request under test: fitting | Basic with secret | Basic with EMPTY password | form secret | client_id only | assertion; storage policy: an empty secret matches a client without one, or not] x opaque/JWT access token x signing alg x storage capability shape incl. extras x flow variant: scopes, response type/mode, PKCE, userinfo assertion, " +
 		"id_token_hint, request object, subject/actor/requested token type, revoked token kind/hint, logout parameters); run = fault-free baseline, then the scenario rebuilt and re-run for EVERY storage-call position j of the request under test x " +
 		"{error, context.DeadlineExceeded, partial-fill-then-error, *oidc.Error server_error, plain error wrapping an *oidc.Error, + every library sentinel a storage may return or pass on from any call: " +
 		"op.ErrInvalidRefreshToken plain and %w-wrapped (not at GetRefreshTokenInfo, whose regular answer it is), op.ErrDuplicateUserCode, oidc.ErrKeyNone, context.Canceled, %w-wrapped context.DeadlineExceeded, *oidc.Error access_denied / slow_down / authorization_pending} " +
 		"and for every distinct method x {error, deadline, oidc, oidc-wrapped, + its documented sentinels} with ALL its calls failing, retries included (extra keys: triples, triples_kind_*, triples_nontrivial = j>=2 or partial, positions, method_wide_runs, method_wide_kind_*, sentinel_runs_*, libsentinel_runs_at_<method>; labels libsentinel-at:<method>); " +
 		"forbidden material includes device_code / user_code; a single-position fault with the try-again sentinel documented for that method (op.ErrDuplicateUserCode at StoreDeviceAuthorization) that the library answers by calling the same method again is grey only if the success is backed by the storage (grey_sentinel_retried_genuine_success); " +
-		"non-trivial scenario = request under test makes >= 2 storage calls; distinct = normalised scenario; excluded and counted: scenarios whose fault-free baseline does not succeed (baseline_not_success)",
+		"non-trivial scenario = request under test makes >= 2 storage calls; distinct = normalised scenario; scenarios whose fault-free request is refused with a clean error answer are enumerated all the same (baseline_refused; labels baseline:<success|refused>:<flow>/<router>, present:<auth method>/<presentation>:<success|refused>, app:<type>, store:empty-secret-ok); excluded and counted: scenarios whose fault-free baseline is neither a success nor a clean refusal (baseline_not_success)",
 	Gen: genCase,
 	Run: run,
 }
